@@ -224,6 +224,30 @@ def r4(ctx, rep):
             continue
         probs, n = paired(f, "push_query", "pop_query")
         rep.check(not probs and n > 0, f"pair:{f['name']}", f"push_query/pop_query not paired in {f['path']}: {probs}", file=f["file"], line=f["l"], fn=f["path"])
+        # the flags of this query are written inside its scope: a write before push_query() is saved as the OUTER query's flag and survives the pop
+        stmts = f["body"]["s"]
+        o = [i for i, s_ in enumerate(stmts) if s_.get("k") == "mcall" and s_["m"] == "push_query"]
+        c = [i for i, s_ in enumerate(stmts) if s_.get("k") == "mcall" and s_["m"] == "pop_query"]
+        outside = []
+        for i, s_ in enumerate(stmts):
+            if o and c and not any(a < i < b for a, b in zip(o, c)):
+                outside += [show(n["lhs"]) for n in walk(s_) if n.get("k") == "assign" and re.match(r"(self|ctx)\.query\.\w+$", show(n["lhs"]))]
+        rep.check(not outside, f"writes-in-scope:{f['name']}", f"{f['path']} assigns {outside} outside its push_query()/pop_query() bracket: the value belongs to the enclosing SELECT and is still set after the "
+                  "nested one returns (`omit_ident_prefix` of a single-table sub-query leaking into a join: `ON id = id`)", file=f["file"], line=f["l"], fn=f["path"])
+    # the set of relation names in use is per SELECT: saved before a nested pipeline is folded and restored after it
+    import C03
+    n_scope = 0
+    for g in syn.fns:
+        if g["crate"] != "prqlc" or "body" not in g or g.get("self_short") != "RelVarNameAssigner":
+            continue
+        for blk in walk(g["body"]):
+            if blk.get("k") == "block" and any("self.fold_sql_transforms(" in show_stmts({"k": "block", "s": [x]}, maxdepth=6) for x in blk["s"]):
+                iso = C03.state_isolation(blk["s"], lambda t: "self.fold_sql_transforms(" in t)
+                n_scope += 1
+                saved, emptied, restored = iso.get("relation_instance_names", (False, False, False))
+                rep.check(saved and emptied and restored, f"names-scope:{g['name']}", "the names used by the relation instances of one SELECT must be moved out before a nested pipeline is folded and put back after it: "
+                          "cleared without being restored, a later instance of the same table in the outer SELECT gets no alias (`JOIN b .. JOIN b`)", file=g["file"], line=blk["l"], fn=g["path"])
+    rep.check(n_scope >= 1, "names-scope:sites", f"expected RelVarNameAssigner::fold_sql_relation to fold nested pipelines, found {n_scope} site(s)")
     # pop restores what push saved
     pu = syn.fn("Context::push_query", crate="prqlc")
     po = syn.fn("Context::pop_query", crate="prqlc")
@@ -549,6 +573,13 @@ def r13(ctx, rep):
     rep.check(emitted is not None and f"{emitted}.is_empty()" in empt, "case:empty", f"an emitted CASE without branches must be replaced (NULL); `{emitted}.is_empty()` is not tested", file=c["file"], line=c["l"], fn=c["path"])
 
 
+def r14(ctx, rep):
+    # a column reference the folders do not reach (inside an array literal, a window, a take range) is not redirected at a split:
+    # the SELECT then names a table that exists only inside the CTE
+    import C01
+    rep.borrowed(C01.r4, ctx, "C07.R14", "every column reference is reached by the RQ / PQ folders, so splits redirect it")
+
+
 def run(ctx, rep):
-    for r in (r1, r2, r3, r4, r5, r6, r7, r8, r9, r10, r11, r12, r13):
+    for r in (r1, r2, r3, r4, r5, r6, r7, r8, r9, r10, r11, r12, r13, r14):
         rep.guard(r, ctx)
